@@ -14,7 +14,7 @@ from __future__ import annotations
 import ast
 
 from .. import flow
-from ..astutil import body_walk, call_name, call_recv, calls_in, names_in, norm, strip_await, walk_no_nested
+from ..astutil import polarity_atoms, body_walk, call_name, call_recv, calls_in, names_in, norm, strip_await, walk_no_nested
 from .common import parmap, where
 
 PROP = "C17"
@@ -451,8 +451,57 @@ def r17_8(ctx):
         )
 
 
+def r17_9(ctx):
+    """INBOX can be neither deleted nor created: the refusing arm of the guard is the one where the name *is* the inbox
+    (arm-exact, the comparison itself is R17.2's), it is the first statement that can have an effect, and RENAME takes the
+    inbox branch exactly for the inbox."""
+    p = ctx.p
+    for key, verb in (("mbox.Mailbox.delete", "DELETE"), ("mbox.Mailbox.create", "CREATE")):
+        fi = p.func(key)
+        ctx.analysed(fi)
+        name = fi.node.args.args[1].arg
+        ok = None
+        for st in fi.node.body:
+            if isinstance(st, ast.Expr) and isinstance(st.value, ast.Constant):
+                continue
+            if isinstance(st, ast.If) and any(isinstance(b, ast.Raise) for b in st.body):
+                for a, pos in polarity_atoms(st.test):
+                    if isinstance(a, ast.Compare) and isinstance(a.left, ast.Call) and call_name(a.left) in ("lower", "casefold") and norm(call_recv(a.left)) == name and isinstance(a.comparators[0], ast.Constant) and a.comparators[0].value == "inbox":
+                        ok = (isinstance(a.ops[0], ast.Eq) and pos) or (isinstance(a.ops[0], ast.NotEq) and not pos)
+                        break
+                if ok is not None:
+                    break
+                continue  # other argument guards may come first
+            break  # first statement with an effect reached
+        if ok:
+            ctx.ok("R17.9", where(fi), f"{verb}: refused exactly when the name is the inbox, before anything else happens")
+        else:
+            ctx.bad(
+                "R17.9", fi.module, fi.qual, f"if {name}.lower() == 'inbox': raise",
+                f"{verb} no longer starts by refusing the inbox (guard missing, negated or after the first effect): "
+                + ("`DELETE INBOX` empties the inbox" if verb == "DELETE" else "`CREATE INBOX` is not refused / every other name is"),
+                fi.node.lineno,
+            )
+    rn = p.func("mbox.Mailbox.rename")
+    ctx.analysed(rn)
+    okr = False
+    for st in body_walk(rn.node):
+        if isinstance(st, ast.If) and st.orelse:
+            for a, pos in polarity_atoms(st.test):
+                if isinstance(a, ast.Compare) and isinstance(a.left, ast.Call) and call_name(a.left) in ("lower", "casefold") and isinstance(a.comparators[0], ast.Constant) and a.comparators[0].value == "inbox":
+                    is_inbox_in_body = (isinstance(a.ops[0], ast.Eq) and pos) or (isinstance(a.ops[0], ast.NotEq) and not pos)
+                    inbox_arm, other_arm = (st.body, st.orelse) if is_inbox_in_body else (st.orelse, st.body)
+                    if any(call_name(c) == "_helper_rename_inbox" for s_ in inbox_arm for c in calls_in(s_)) and any(call_name(c) == "_helper_rename_folder" for s_ in other_arm for c in calls_in(s_)):
+                        okr = True
+    if okr:
+        ctx.ok("R17.9", where(rn), "RENAME: the inbox goes through _helper_rename_inbox (messages move, inbox stays), every other mailbox through _helper_rename_folder")
+    else:
+        ctx.bad("R17.9", rn.module, rn.qual, "if mbox.name.lower() != 'inbox': _helper_rename_folder else _helper_rename_inbox", "RENAME no longer takes the inbox branch exactly for the inbox: RENAME INBOX renames the inbox folder away (or an ordinary mailbox is treated as the inbox)", rn.node.lineno)
+
+
 def run(ctx):
     ctx.do(r17_8)
+    ctx.do(r17_9)
     ctx.do(r17_1)
     ctx.do(r17_2)
     ctx.do(r17_4)
